@@ -176,15 +176,6 @@ func vkGo(f func()) {
 	go f()
 }
 
-func vkForkAndExec(r *Runner, argv0 *byte, argv, env []*byte, workdir, hostname, domainname, pivotRoot *byte, p [2]int) (uintptr, syscall.Errno) {
-	if vkOn {
-		vk.BeginLaunch(r, func(r2 *Runner) {
-			forkAndExecInChild(r2, argv0, argv, env, workdir, hostname, domainname, pivotRoot, p)
-		})
-	}
-	return forkAndExecInChild(r, argv0, argv, env, workdir, hostname, domainname, pivotRoot, p)
-}
-
 // VChildError mirrors the layout knowledge needed by the stub kernel to decode what the child
 // writes on the sync socket.
 const VChildErrorSize = unsafe.Sizeof(ChildError{})
